@@ -398,6 +398,13 @@ def h_zip(ip, st, a, kw, node):
     if seqs and all(s is not None for s in seqs):
         n = min(len(s) for s in seqs)
         return Tup([Tup([s[i] for s in seqs]) for i in range(n)], 'list')
+    known = [s for s in seqs if s is not None]
+    if known and all(isinstance(x, (Poly, Tup)) or _as_seq(x) is not None for x in a):
+        # zipping with a sequence of known length n: the others are taken to have (at least) n items
+        n = min(len(s) for s in known)
+        if n <= 8:
+            return Tup([Tup([s[i] if s is not None else nf.index(P(x), Poly.const(i)) for s, x in zip(seqs, a)])
+                        for i in range(n)], 'list')
     return app('zip', *[x if isinstance(x, (Poly, Tup, Const)) else P(x) for x in a])
 
 
@@ -450,6 +457,18 @@ HANDLERS['min'] = h_builtin_minmax('min')
 HANDLERS['slice'] = h_slice
 HANDLERS['isinstance'] = h_isinstance
 HANDLERS['math.factorial'] = h_generic('factorial')
+
+
+def h_comb(ip, st, a, kw, node):
+    """C(n, k) = n! / (k! (n-k)!)"""
+    n, k = P(a[0]), P(a[1])
+    f = lambda x: app('factorial', x)
+    return f(n) / (f(k) * f(n - k))
+
+
+HANDLERS['math.comb'] = h_comb
+HANDLERS['scipy.special.comb'] = h_comb
+HANDLERS['scipy.special.factorial'] = h_generic('factorial')
 for _n in ('range', 'enumerate', 'zip', 'sorted', 'sum', 'any', 'all', 'hash', 'id', 'type',
            'str', 'repr', 'print', 'getattr', 'hasattr', 'reversed', 'map', 'filter', 'set',
            'dict', 'iter', 'next', 'super'):
